@@ -5,15 +5,15 @@ CONSTANTS
   Role = "server"
   WBuf = 256
   Shapes <- S_wmL_wmS
-  Ctl <- C_close_ping
+  Ctl <- C_pingS_ping_close
   Closer = FALSE
   ControlTakesLock = TRUE
   FlushAtomic = TRUE
   LatchChecked = TRUE
-  CloseLatches = FALSE
+  CloseLatches = TRUE
   TimeoutReleases = FALSE
   Fifo = TRUE
-  OnlyBad = TRUE
-  Family = "atk_nolatch"
+  OnlyBad = FALSE
+  Family = "timeout"
 INVARIANT Emit
 CHECK_DEADLOCK FALSE
